@@ -222,7 +222,7 @@ _SKIP = re.compile(r"^(__interceptor_|__asan|__ubsan|__sanitizer|__lsan|__msan|_
 def crash_key(rc, err):
     """Normalise a sanitizer report / abnormal exit into a key: kind@top-cjet-frames"""
     kind = None
-    m = re.search(r"ERROR: (AddressSanitizer|LeakSanitizer|MemorySanitizer): ([\w-]+)", err)
+    m = re.search(r"(?:ERROR|WARNING): (AddressSanitizer|LeakSanitizer|MemorySanitizer): ([\w-]+)", err)
     if m:
         kind = m.group(2) if m.group(1) != "LeakSanitizer" else "leak"
         if m.group(1) == "MemorySanitizer":
